@@ -141,7 +141,15 @@ static void case_1d(Rng& rng, uint64_t)
 			BudgetGuard g(200000);
 			a = Find_Maximum(neg, xl, xr, tol);	  // maximum of -f
 		}
-		require("maximum-is-minimum-of-negated", same_bits(a, xmin), [&] { return J().d("Find_Maximum(-f)", a).d("Find_Minimum(f)", xmin); });
+		// identical when Find_Maximum delegates to Find_Minimum; otherwise it must be what a minimiser of f may return: not worse than both starting
+		// points and, for unimodal objectives, within the tolerance of the minimiser
+		bool as_good = o.f(a) <= std::min(fl, fr);
+		if(as_good && o.unimodal)
+		{
+			double tolx = 10 * tol * std::fabs(o.xstar) + 100 * std::sqrt(EPS) * std::max(std::fabs(o.xstar), s) + 8 * s * std::sqrt(EPS * std::fabs(o.fstar) / o.kappa) + (o.quartic ? 0.02 * s : 0.0);
+			as_good = std::fabs(a - o.xstar) <= tolx;
+		}
+		require("maximum-is-minimum-of-negated", same_bits(a, xmin) || as_good, [&] { return J().d("Find_Maximum(-f)", a).d("Find_Minimum(f)", xmin); });
 		(void) b;
 	}
 	if(iters >= 10)
